@@ -118,6 +118,97 @@ func opInFlightWhenLockTaken(kind string) (problem string) {
 	return ""
 }
 
+// leaveHandOverFailsAtKthImport: a node that owns several hundred keys leaves
+// gracefully and the k-th Import call of its hand-over fails before delivery
+// (for k > 1 that call only exists if the hand-over is split into several
+// transfers). The leave attempt is abandoned and retried after a pause; during
+// that pause clients read every key through another node. Every read must
+// return the value written or fail retryably - never succeed with nothing.
+func leaveHandOverFailsAtKthImport(k int) (problem string, fired bool) {
+	const (
+		P = uint64(1) << 44
+		S = uint64(9) << 44 // owns half of the identifier space, leaves
+		N = uint64(13) << 44
+	)
+	// the pause between two leave attempts is one stabilization interval: long enough to read in
+	r := newSimRing(ringsim.Config{Seed: 57, StabilizeInterval: 400 * time.Millisecond, FixFingerInterval: 400 * time.Millisecond, PredCheckInterval: 400 * time.Millisecond})
+	defer r.net.Close()
+	if err := r.buildRing([]uint64{P, S, N}, func(i int) int { return 0 }); err != nil {
+		return "precondition: " + err.Error(), false
+	}
+	if _, c := r.settle(60, true, nil); c.Problem != "" {
+		return "precondition: " + c.Problem, false
+	}
+	r.fillLists(20)
+	ctx := context.Background()
+	want := map[string]string{}
+	var keys []string
+	for i := 0; len(keys) < 400 && i < 1<<16; i++ {
+		key := fmt.Sprintf("handover-%d", i)
+		if chord.Between(P, chord.Hash([]byte(key)), S, true) {
+			v := fmt.Sprintf("value-%d", i)
+			if err := retryKV(func() error { return r.members[S].Node.Put(ctx, []byte(key), []byte(v)) }); err != nil {
+				return "precondition: put: " + err.Error(), false
+			}
+			want[key] = v
+			keys = append(keys, key)
+		}
+	}
+	rule := r.net.AddRule(&ringsim.FaultRule{Method: "Import", Caller: S, Callee: N, Mode: ringsim.FailBefore, From: k, To: k})
+	leaveDone := make(chan struct{})
+	go func() { r.members[S].Node.Leave(); close(leaveDone) }()
+	// wait for the fault (or for the leave to finish without ever making a k-th call)
+	for deadline := time.Now().Add(10 * time.Second); time.Now().Before(deadline); {
+		if r.net.RuleFired(rule) > 0 {
+			fired = true
+			break
+		}
+		select {
+		case <-leaveDone:
+			deadline = time.Now()
+		default:
+			time.Sleep(200 * time.Microsecond)
+		}
+	}
+	read := func(stage string, retry bool) string {
+		via := r.members[P].Node
+		for _, key := range keys {
+			var got []byte
+			var err error
+			if retry {
+				err = retryKV(func() (e error) { got, e = via.Get(ctx, []byte(key)); return })
+			} else {
+				got, err = via.Get(ctx, []byte(key))
+			}
+			switch {
+			case err != nil && chord.ErrorIsRetryable(err) && !retry:
+			case err != nil:
+				return fmt.Sprintf("%s: Get(%q) via %d failed: %v", stage, key, P, err)
+			case string(got) != want[key]:
+				return fmt.Sprintf("%s: Get(%q) via %d succeeded with %q; the value written (and never deleted) is %q", stage, key, P, got, want[key])
+			}
+		}
+		return ""
+	}
+	if fired {
+		if p := read(fmt.Sprintf("in the pause after Import call #%d of the leave's hand-over had failed", k), false); p != "" {
+			r.net.ClearRules()
+			<-leaveDone
+			return p, true
+		}
+	}
+	r.net.ClearRules()
+	select {
+	case <-leaveDone:
+	case <-time.After(60 * time.Second):
+		return "precondition: leave did not return", fired
+	}
+	if _, c := r.settle(60, false, nil, false); c.Problem != "" {
+		return "precondition: not converged after the leave: " + c.Problem, fired
+	}
+	return read("after the leave", true), fired
+}
+
 // parkCore is a zap core used as a schedule point INSIDE a function of the
 // code under test: the KV request path derives a per-request logger
 // (logger.With(key=...)) after the owner lookup and before it takes the node's
